@@ -56,6 +56,13 @@ int main(int argc, char** argv)
          const double d_chi = std::abs(m.get_MChi(bm) - os.get_MChi(bo));
          const double d_sv = std::abs(m.get_MSvmL() - os.get_MSvmL());
          const double d_sm = std::abs(m.get_MSm(r) - pole(r));
+         // parameter recovery (signs included) on well-conditioned points
+         const bool wellcond = std::abs(std::abs(m1) - std::abs(m2)) > 0.1*std::abs(m1) && std::abs(std::abs(mu) - std::abs(m2)) > 0.1*std::abs(mu)
+            && std::abs(std::abs(mu) - std::abs(m1)) > 0.1*std::abs(mu);
+         if (wellcond && (std::abs(m.get_Mu() - mu) > 1e-2*std::abs(mu) || std::abs(m.get_MassB() - m1) > 1e-2*std::abs(m1) || std::abs(m.get_MassWB() - m2) > 1e-2*std::abs(m2))) {
+            bad++;
+            if (bad < 10) std::printf("on-shell parameters not recovered: mu %g -> %g, M1 %g -> %g, M2 %g -> %g (no warning)\n", mu, m.get_Mu(), m1, m.get_MassB(), m2, m.get_MassWB());
+         }
          const double tol = strict ? std::max(100*prec, 1e-6) : 0.5;
          if (!(d_cha <= tol && d_chi <= tol && d_sv <= tol && d_sm <= tol)) {
             bad++;
